@@ -10,6 +10,7 @@ require (
 	github.com/pion/rtcp v1.2.17
 	github.com/pion/rtp v1.10.4
 	github.com/pion/webrtc/v4 v4.2.17
+	golang.org/x/crypto v0.48.0
 )
 
 require (
@@ -31,7 +32,6 @@ require (
 	github.com/pion/transport/v4 v4.0.2 // indirect
 	github.com/pion/turn/v5 v5.0.12 // indirect
 	github.com/wlynxg/anet v0.0.5 // indirect
-	golang.org/x/crypto v0.48.0 // indirect
 	golang.org/x/mod v0.41.0 // indirect
 	golang.org/x/net v0.50.0 // indirect
 	golang.org/x/sync v0.23.0 // indirect
